@@ -46,7 +46,7 @@ class Prop:
     run_timeout = 30
     tiers = {"quick": {"runs": 60000, "budget_s": 40, "chunk": 250},
              "thorough": {"runs": 3000000, "budget_s": 600, "chunk": 500}}
-    rule = ("case = seeded world (1-3 root BlockSeries with 0-3 finite and 0-2 infinite dimensions, absent elements, "
+    rule = ("case = seeded world (1-3 root BlockSeries with 0-4 finite and 0-2 infinite dimensions, absent elements, "
             "pre-cached data, dependency edges incl. self-referential cycles of length 1-3) + seeded sequence of 5-40 index "
             "operations on roots and kept views; non-trivial = at least 3 value-returning operations, at least one "
             "masked-array result or view operation, and at least 2 operation categories; distinct = distinct sha256 of the "
@@ -56,7 +56,7 @@ class Prop:
               "dep_nested_eval", "dep_slice_eval", "dep_view_eval", "kept_view_created", "op_on_kept_view", "npint_index", "cycle_len1", "cycle_len2", "cycle_len3", "view_of_view", "wrong_length"]
     components_real = ["pymablock.series.BlockSeries (__getitem__, views, _check_finite, _check_number_perturbations)"]
     components_stub = ["element eval callbacks (simulator-owned table with dependency edges)", "series names (token_hex counter)"]
-    assumptions = ["orders < 5, at most 3 finite and 2 infinite dimensions, sizes 1-3",
+    assumptions = ["orders < 5, at most 4 finite and 2 infinite dimensions (5 in total), sizes 1-3",
                    "requests touching an ill-founded element only through a packed view's sibling cells may either raise RuntimeError or return the model value"]
 
     # ------------------------------------------------------------------ generation
@@ -64,11 +64,11 @@ class Prop:
         nroots = r.choice([1, 1, 2, 3])
         roots = []
         for s in range(nroots):
-            nfin = r.choice([0, 1, 2, 2, 2, 3])
+            nfin = r.choice([0, 1, 2, 2, 2, 3, 3, 4])
             ninf = r.choice([0, 1, 1, 1, 2]) if nfin else r.choice([1, 1, 2])
-            if nfin + ninf > 4:
-                nfin = 4 - ninf
-            shape = [r.choice([1, 2, 2, 3]) for _ in range(nfin)]
+            if nfin + ninf > 5:
+                nfin = 5 - ninf
+            shape = [r.choice([1, 2, 2, 3] if nfin < 4 else [1, 2, 2]) for _ in range(nfin)]
             roots.append({"shape": shape, "ninf": ninf, "p_absent": r.choice([0.0, 0.2, 0.5]),
                           "vseed": r.randrange(1 << 30), "pre": []})
         # pre-cached entries
